@@ -280,10 +280,19 @@ func (d *discInfoSector) encode(enc *iso9660encoder) {
 	enc.appendBytes(d.Hash[:])
 }
 
+// maxIdentifierSize is the longest identifier for which directory record (33 bytes + identifier + padding)
+// still fits to its one-byte length; it's even, so Joliet (2 bytes per character) identifiers are cut at character boundary.
+const maxIdentifierSize = 220
+
 func makeIdentifier(name string, joliet bool) stringD1 {
 	if !joliet {
 		name = strings.ToUpper(name)
 	}
 
-	return mangleStrD1(name, joliet)
+	identifier := mangleStrD1(name, joliet)
+	if len(identifier) > maxIdentifierSize {
+		identifier = identifier[:maxIdentifierSize] // longer names can't be represented
+	}
+
+	return identifier
 }
